@@ -314,11 +314,8 @@ func corrInstances(tier string) []Instance {
 						for _, d := range tb.dones {
 							for _, cancel := range []bool{false, true} {
 								p := corrParams{kind: kind, n: n, k: k, fails: fails, levels: tb.levels, doneAt: d, cancel: cancel}
-								bound := 0
-								if thorough(tier) || (n == 1 && !strings.Contains(kind, "Custom")) {
-									bound = 1
-								}
-								if thorough(tier) && n == 1 {
+								bound := 1
+								if n == 1 && (thorough(tier) || !strings.Contains(kind, "Custom")) {
 									bound = 2
 								}
 								out = append(out, Instance{Name: p.name(), Bound: bound, Root: corrHistory(p)})
